@@ -463,6 +463,78 @@ def canon(m, labels):
     return out
 
 
+def names(m, labels):
+    """root element -> least term structure over the labels (None for unnamed elements)."""
+    nm = {}
+    for lab, e in labels.items():
+        r = m.find(e)
+        cand = (1, ("L", lab))
+        if nm.get(r) is None or cand < nm[r]:
+            nm[r] = cand
+    changed = True
+    while changed:
+        changed = False
+        for f in sorted(m.sig.funcs):
+            for t in m.rels[f]:
+                args = [nm.get(m.find(x)) for x in t[:-1]]
+                if any(a is None for a in args):
+                    continue
+                cand = (1 + sum(a[0] for a in args), ("A", f, tuple(a[1] for a in args)))
+                r = m.find(t[-1])
+                if nm.get(r) is None or cand < nm[r]:
+                    nm[r] = cand
+                    changed = True
+    return {k: v[1] for k, v in nm.items()}
+
+
+def eval_name(m, labels, n):
+    """Evaluate a term structure produced by names() in another model; None if undefined."""
+    if n[0] == "L":
+        e = labels.get(n[1])
+        return None if e is None else m.find(e)
+    args = []
+    for a in n[2]:
+        x = eval_name(m, labels, a)
+        if x is None:
+            return None
+        args.append(x)
+    return m.eval_func(n[1], args)
+
+
+def embeds(s, slabels, f, flabels, limit=5):
+    """Is every element, tuple and equality of model s present in model f (elements identified
+    through their least terms over the caller's labels)? Returns a list of problems."""
+    out = []
+    nm = names(s, slabels)
+    img = {}
+    for ty in s.sig.all_types:
+        for e in s.roots(ty):
+            n = nm.get(e)
+            if n is None:
+                out.append("element %s#%d of the stopped state is not denoted by any term over the caller's elements" % e)
+                continue
+            x = eval_name(f, flabels, n)
+            if x is None:
+                out.append("element %s of the stopped state does not exist in the closed model" % show_name(n))
+            img[e] = x
+    for r, rows in s.rels.items():
+        frows = set(tuple(f.find(x) for x in t) for t in f.rels[r])
+        for t in rows:
+            it = tuple(img.get(s.find(x)) for x in t)
+            if any(x is None for x in it):
+                continue
+            if it not in frows:
+                out.append("tuple %s(%s) of the stopped state does not hold in the closed model" % (r, ", ".join(show_name(nm[s.find(x)]) for x in t)))
+            if len(out) >= limit:
+                return out
+    for la, ea in slabels.items():
+        for lb, eb in slabels.items():
+            if la < lb and ea[0] == eb[0] and s.find(ea) == s.find(eb):
+                if la in flabels and lb in flabels and f.find(flabels[la]) != f.find(flabels[lb]):
+                    out.append("caller elements %s and %s are equal in the stopped state but not in the closed model" % (la, lb))
+    return out[:limit]
+
+
 def show_name(n):
     if n[0] == "L":
         return n[1]
